@@ -1,6 +1,10 @@
 package main
 
 import (
+	"fmt"
+	"sort"
+	"strings"
+
 	"golang.org/x/tools/go/ssa"
 )
 
@@ -138,8 +142,110 @@ func checkC05(c *Ctx) {
 			c.Ob("C05.mod", pk, funcKey(fn), "arguments-unmodified", p.Pos(fn.Pos()), ok, msg)
 		}
 	}
+	// ---- association consistency of line coefficients and their scaling tables
+	c.Rule("C05.assoc", "ASSOCIATION (deviance inside one function): in the Miller loops every line coefficient R_k is scaled (MulByElement) by an entry of one and the same per-pair table throughout the function (R0 with x/y, R1 with 1/y, ...): a coefficient scaled by two different tables, or a table used for two different coefficients, means one site has its factors swapped", 14)
+	_ = 0
+	for _, pk := range pairingPkgs(p) {
+		for _, name := range []string{"MillerLoop", "MillerLoopFixedQ"} {
+			fn := p.Func(pk, "", name)
+			if fn == nil {
+				continue
+			}
+			c.Instance("C05.assoc", 1)
+			byField := map[string]map[string]bool{}
+			byTable := map[string]map[string]bool{}
+			sites := 0
+			for _, b := range fn.Blocks {
+				for _, in := range b.Instrs {
+					call, ok := in.(*ssa.Call)
+					if !ok || calleeOf(&call.Call).Name != "MulByElement" || len(call.Call.Args) != 3 {
+						continue
+					}
+					fa, ok := call.Call.Args[1].(*ssa.FieldAddr)
+					if !ok {
+						continue
+					}
+					field := fieldName(fa.X.Type(), fa.Field)
+					if !strings.HasPrefix(strings.ToUpper(field), "R") {
+						continue
+					}
+					tbl := ""
+					switch sc := call.Call.Args[2].(type) {
+					case *ssa.IndexAddr: // &yInv[k]
+						tbl = tableIdentity(sc.X)
+					case *ssa.FieldAddr: // &p[k].X
+						if ia, ok := sc.X.(*ssa.IndexAddr); ok {
+							if t := tableIdentity(ia.X); t != "" {
+								tbl = t + "." + fieldName(sc.X.Type(), sc.Field)
+							}
+						}
+					}
+					if tbl == "" {
+						continue
+					}
+					sites++
+					if byField[field] == nil {
+						byField[field] = map[string]bool{}
+					}
+					byField[field][tbl] = true
+					if byTable[tbl] == nil {
+						byTable[tbl] = map[string]bool{}
+					}
+					byTable[tbl][field] = true
+				}
+			}
+			ok := true
+			msg := ""
+			for f, ts := range byField {
+				if len(ts) > 1 {
+					ok = false
+					msg = fmt.Sprintf("%s: line coefficient %s is scaled by entries of %d different tables (%s) at different sites", funcKey(fn), f, len(ts), strings.Join(sortedKeys(ts), ", "))
+				}
+			}
+			for t, fs := range byTable {
+				if len(fs) > 1 {
+					ok = false
+					msg = fmt.Sprintf("%s: the table %s scales %d different line coefficients (%s) at different sites", funcKey(fn), t, len(fs), strings.Join(sortedKeys(fs), ", "))
+				}
+			}
+			if sites > 0 {
+				c.Ob("C05.assoc", pk, funcKey(fn), "coefficient-table-association-consistent", p.Pos(fn.Pos()), ok, msg)
+			}
+		}
+	}
 	for t := range eff.Trusted {
 		c.Trust(t)
 	}
 	c.Assume("bilinearity, non-degeneracy and equality of the fixed-argument and generic Miller loops as values are not decided (value level)")
+}
+
+func sortedKeys(m map[string]bool) []string {
+	var out []string
+	for k := range m {
+		out = append(out, k)
+	}
+	sort.Strings(out)
+	return out
+}
+
+// tableIdentity names the slice a scaling factor is taken from: the local variable (through its
+// debug name) or the defining call.
+func tableIdentity(v ssa.Value) string {
+	v = stripConv(v)
+	switch x := v.(type) {
+	case *ssa.UnOp:
+		if a, ok := x.X.(*ssa.Alloc); ok {
+			return "var:" + a.Comment
+		}
+		return tableIdentity(x.X)
+	case *ssa.Call:
+		return "call:" + calleeOf(&x.Call).Name + "@" + x.Name()
+	case *ssa.MakeSlice:
+		return "make:" + x.Name()
+	case *ssa.Phi:
+		return "phi:" + x.Comment
+	case *ssa.Parameter:
+		return "param:" + x.Name()
+	}
+	return ""
 }
